@@ -140,6 +140,14 @@ def register(prop: str, body: Body, cfg_for: Optional[Callable[[tuple], Optional
     _BODIES[prop] = (body, cfg_for or (lambda root: None), extra)
 
 
+NOTES: collections.Counter = collections.Counter()
+
+
+def note(key: str) -> None:
+    """a property body records that it could not judge a case (shown under case_classes in the evidence)"""
+    NOTES[key] += 1
+
+
 def _worker(args: Tuple[str, List[tuple], int, int, bool, int]) -> dict:
     prop, roots, n_cases, seed, do_shrink, max_new = args
     sub = subject()
@@ -255,6 +263,9 @@ def _worker(args: Tuple[str, List[tuple], int, int, bool, int]) -> dict:
     res["known_examples"] = ctx.known_examples
     res["unions"] = {f"{k[0]}#{k[1]}": v for k, v in res["unions"].items()}
     res["classes"] = dict(res["classes"])
+    for k_, v_ in NOTES.items():   # what the property bodies counted themselves (cases they could not judge, and why)
+        res["classes"]["note:" + k_] = res["classes"].get("note:" + k_, 0) + v_
+    NOTES.clear()
     return res
 
 
